@@ -126,6 +126,10 @@ func (s *Search) And(field, operator string, value interface{}) *Search {
 		return s
 	}
 
+	// the index is read, so writers must be kept away
+	s.db.RLock()
+	defer s.db.RUnlock()
+
 	return s.db.search(s.object, field, operator, value, s.fields)
 }
 
@@ -136,7 +140,11 @@ func (s *Search) Or(field, operator string, value interface{}) *Search {
 		return s
 	}
 
+	// the index is read, so writers must be kept away
+	s.db.RLock()
 	new := s.db.search(s.object, field, operator, value, nil)
+	s.db.RUnlock()
+
 	marked := make(map[uint64]bool)
 	// we mark the fields of the new search
 	for _, f := range new.fields {
@@ -159,6 +167,14 @@ func (s *Search) Len() int {
 // Iterator returns an Iterator convenient to iterate over
 // the objects resulting from the search
 func (s *Search) Iterator() (it *iterator, err error) {
+	s.db.RLock()
+	defer s.db.RUnlock()
+
+	return s.iterator()
+}
+
+// iterator must be called by functions already holding the lock
+func (s *Search) iterator() (it *iterator, err error) {
 	var sch *Schema
 
 	if s.err != nil {
@@ -305,7 +321,7 @@ func (s *Search) collect() (out []Object, err error) {
 		return nil, s.err
 	}
 
-	if it, err = s.Iterator(); err != nil {
+	if it, err = s.iterator(); err != nil {
 		return
 	}
 
